@@ -462,9 +462,11 @@ func (m *Mint) MintTokens(mintTokensRequest nut04.PostMintBolt11Request) (cashu.
 			return nil
 		}()
 
-		// update mint quote to previous state if there was an error
+		// update mint quote to previous state if there was an error.
+		// note: mintQuote.State may have been changed to Issued above so the
+		// previous state is Paid (this is the nut04.Paid case)
 		if err != nil {
-			if err := m.db.UpdateMintQuoteState(mintQuote.Id, mintQuote.State); err != nil {
+			if err := m.db.UpdateMintQuoteState(mintQuote.Id, nut04.Paid); err != nil {
 				return nil, err
 			}
 			return nil, err
